@@ -82,6 +82,13 @@ func (st *State) doCall(instr *ssa.Call, c *ssa.CallCommon, fnv Value, args []Va
 	if callee == nil {
 		// dynamic call through a func value
 		key := fnv.Origin
+		if key == "" || e.specs.Funcs[key] == nil {
+			if n, ok := types.Unalias(c.Value.Type()).(*types.Named); ok && n.Obj().Pkg() != nil {
+				if k2 := n.Obj().Pkg().Name() + "." + n.Obj().Name(); e.specs.Funcs[k2] != nil || key == "" {
+					key = k2
+				}
+			}
+		}
 		if key == "" {
 			key = "funcvalue:" + c.Value.Name()
 		}
@@ -92,7 +99,12 @@ func (st *State) doCall(instr *ssa.Call, c *ssa.CallCommon, fnv Value, args []Va
 		if spec := e.specs.Funcs[key]; spec != nil {
 			spec.Used = true
 			e.trusted[key+" (fnspec)"] = true
+			st.selfVal = &Value{T: types.Typ[types.Int], Tm: fnv.Tm}
+			if fnv.Tm.IsZero() {
+				st.selfVal = nil
+			}
 			r := st.applySpec(spec, sig, args, pos, key, nil)
+			st.selfVal = nil
 			return st.finishCall(instr, r, deferred)
 		}
 		r := st.unmodelled(key, sig, args, resT)
@@ -451,6 +463,9 @@ func (st *State) applySpec(spec *FuncSpec, sig *types.Signature, args []Value, p
 		for i, n := range names {
 			env.vars[n] = args[i]
 		}
+		if st.selfVal != nil {
+			env.vars["self"] = *st.selfVal
+		}
 		env.resNames = spec.ResNames
 		return env
 	}
@@ -491,6 +506,9 @@ func (st *State) applySpec(spec *FuncSpec, sig *types.Signature, args []Value, p
 		st.assumeAll(env.defs)
 	}
 	for _, c := range spec.Ensures {
+		if strings.HasPrefix(c.Label, "!") {
+			continue // private clause: proved for the function, not exported to callers (keeps their context small)
+		}
 		env := mkEnv(st)
 		env.res = res
 		t := env.evalBool(c.E)
@@ -532,7 +550,11 @@ func (st *State) havocLocation(env *Env, m *Expr) {
 	switch m.Kind {
 	case EIdent:
 		if m.Op == "everything" {
-			st.havocAll()
+			if env.callee != nil {
+				st.havocAllExcept(e.preservedNames(env.callee))
+			} else {
+				st.havocAll()
+			}
 			return
 		}
 		// ghost variable or global
@@ -865,24 +887,46 @@ func (st *State) tryTypeName(env *Env, name string) types.Type {
 	return nil
 }
 
-func (st *State) havocAll() {
+func (st *State) havocAll() { st.havocAllExcept(nil) }
+
+func (st *State) havocAllExcept(except map[string]bool) {
 	e := st.eng()
 	for name := range st.heap {
-		if name == "RO" {
+		if name == "RO" || except[name] {
 			continue
 		}
 		st.heapHavoc(name, e.heapSorts[name])
 	}
+	if len(except) > 0 {
+		// heap variables not yet mentioned on this path and excluded keep their initial version; others get a new epoch
+		st.epochExcept = except
+	}
 	st.epoch++
+}
+
+func (e *Engine) preservedNames(spec *FuncSpec) map[string]bool {
+	if len(spec.Preserves) == 0 {
+		return nil
+	}
+	ws := newWriteSet()
+	for _, p := range spec.Preserves {
+		e.modifiesHeapNames(spec, p, ws)
+	}
+	out := map[string]bool{}
+	for n := range ws.heap {
+		out[n] = true
+	}
+	return out
 }
 
 // ---------------------------------------------------------------------------------------------
 // loops: havoc of everything assigned in the loop body
 
 type writeSet struct {
-	cells map[*ssa.Alloc]bool
-	heap  map[string]Sort
-	all   bool
+	cells  map[*ssa.Alloc]bool
+	heap   map[string]Sort
+	all    bool
+	except map[string]bool // with all: heap variables left alone
 }
 
 func newWriteSet() *writeSet {
@@ -1118,9 +1162,25 @@ func (e *Engine) unmodelledWrites(c *ssa.CallCommon, ws *writeSet) {
 // specWrites: heap variables named by a modifies clause (type-based over-approximation)
 func (e *Engine) specWrites(spec *FuncSpec, ws *writeSet) {
 	for i, m := range spec.Modifies {
+		if m.Kind == EIdent && m.Op == "everything" {
+			pn := e.preservedNames(spec)
+			if !ws.all {
+				ws.all = true
+				ws.except = pn
+			} else {
+				// intersection of the exclusions
+				for n := range ws.except {
+					if !pn[n] {
+						delete(ws.except, n)
+					}
+				}
+			}
+			continue
+		}
 		if !e.modifiesHeapNames(spec, m, ws) {
 			_ = i
 			ws.all = true
+			ws.except = nil
 		}
 	}
 }
@@ -1158,7 +1218,7 @@ func (st *State) havocLoop(li *loopInfo) *writeSet {
 		}
 	}
 	if ws.all {
-		st.havocAll()
+		st.havocAllExcept(ws.except)
 		e.assumes["a loop calls code with an unknown write set: whole heap havocked at that loop"] = true
 	}
 	// cells
